@@ -108,7 +108,7 @@ fn op_txt(op: &Op) -> String {
         Op::Cons(l, k) => format!("c:{}.{}", l, k),
         Op::Create(ls, ps) => format!("n:{}:{}", labels_txt(ls), props_txt(ps)),
         Op::Set(h, k, v) => format!("s:{}.{}.{}", h, k, v.txt()),
-        Op::SetMap(h, k, v) => format!("s:{}.{}.{}", h, k, v.txt()),
+        Op::SetMap(h, k, v) => format!("m:{}.{}.{}", h, k, v.txt()),
         Op::Remove(h, k) => format!("r:{}.{}", h, k),
         Op::Delete(h) => format!("d:{}", h),
         Op::AddL(h, l) => format!("a:{}.{}", h, l),
@@ -172,6 +172,10 @@ fn parse_op(s: &str) -> Option<Op> {
         ["s", a] => {
             let d = dots(a);
             Some(Op::Set(d.first()?.parse().ok()?, d.get(1)?.parse().ok()?, V::parse(d.get(2)?)?))
+        }
+        ["m", a] => {
+            let d = dots(a);
+            Some(Op::SetMap(d.first()?.parse().ok()?, d.get(1)?.parse().ok()?, V::parse(d.get(2)?)?))
         }
         ["r", a] => {
             let d = dots(a);
@@ -650,9 +654,11 @@ fn main() {
         let (ld, le) = if args.thorough() { (4, 4) } else { (3, 4) };
         exhaustive(la, 2, &letters_a, &[], &[], &mut cases);
         exhaustive(lb, 2, &letters_b, &[], &[], &mut cases);
-        // the constraints are declared up front so that short histories run under them
-        exhaustive(ld, 2, &letters_d, &[], &[Op::Cons(0, 0), Op::Cons(1, 0)], &mut cases);
-        exhaustive(le, 2, &letters_e, &[], &[Op::Cons(0, 0)], &mut cases);
+        // the constraints are declared up front so that short histories run under them, and a
+        // bystander node exists so that a stale entry shows even when the freed id is recycled
+        let bystander = Op::Create(vec![0, 1], vec![(0, V::I(7))]);
+        exhaustive(ld, 2, &letters_d, &[], &[Op::Cons(0, 0), Op::Cons(1, 0), bystander.clone()], &mut cases);
+        exhaustive(le, 2, &letters_e, &[], &[Op::Cons(0, 0), bystander], &mut cases);
         let seeds = [
             Seed { labels: vec![0], props: vec![(0, V::I(1))], stub: true },
             Seed { labels: vec![0], props: vec![(0, V::I(1))], stub: false },
@@ -703,6 +709,9 @@ fn main() {
             real.iter().map(|os| os.iter().map(|o| o.txt()).collect::<Vec<_>>().join(";")).collect();
         let mut lines = Vec::with_capacity(chunk.len() * 2);
         for (k, (pop, ops)) in rendered.iter().enumerate() {
+            // for the model `SET n += {k: v}` (m:) is the write `SET n.k = v` (s:)
+            let ops = format!(";{}", ops).replace(";m:", ";s:");
+            let ops = &ops[1..];
             lines.push(format!("run {} {}", pop, ops));
             lines.push(format!("spec {} {}", ops, real_txt[k]));
         }
